@@ -29,7 +29,7 @@ type c18Result struct {
 func c18(c *rig.Ctx) {
 	c.Rule("C18: PRNG-generated commit DAGs (1–60 commits, 0–4 parents biased to recent tips, duplicate parents, explicit criss-cross pairs, octopus merges, extra roots), built through datas.Database (Commit on fresh dataset / Commit on a dataset whose head is a parent / NewCommitForValue+WriteCommit) on memory storage and, for a subset, an on-disk NBS store that is reopened; a DAG is distinct by its parent-list shape and non-trivial when it contains a merge")
 	c.Assume("C18: the brute-force ancestor walk and height recursion of the harness (cross-checked against a second incremental implementation on every DAG) define 'proper ancestors' and 'height'")
-	n := c.Pick(200, 5000)
+	n := c.Pick(1000, 50000)
 	type job struct{ i int }
 	jobs := make(chan int)
 	var mu sync.Mutex
@@ -318,7 +318,7 @@ func c18Check(c *rig.Ctx, name string, b *builtDAG, rdb *realDB, phase string, c
 		}
 		// point queries agree with iteration
 		if !cc.IsEmpty() && k > 0 {
-			a := (k * 7) % k
+			a := (k*7 + 3) % k
 			has, err := cc.ContainsKey(bg, b.addr[a], uint64(m.height[a]))
 			if err == nil && has != m.anc[k].has(a) {
 				c.Violation("c18/closure/contains", fmt.Sprintf("%s: commit %d closure ContainsKey(commit %d)=%v, model %v", name, k, a, has, m.anc[k].has(a)), wit(nil))
